@@ -773,6 +773,7 @@ def timers_part(own):
 
 
 TIMERS_C04 = ("lease-timer-missed", "lease-violated", "attempt-number")
+TIMERS_C02 = ("stale-config-in-waiting-pull",)
 TIMERS_C14 = ("delivered-after-retention", "delay-timer-missed", "delivered-before-delay")
 TIMERS_C15 = ("reused-job-misses-rows",)
 
@@ -944,7 +945,8 @@ def claim_c02(kind, mm):
 def claim_c04(kind, mm):
     k = kind.split(":")[0]
     return (k == "Pull" and ("MDels" in mm or "illegal-fuzz" in mm or "MResp" in mm or "illegal-selection" in mm)) or \
-        (k in ("ModAck", "StreamAckNack") and ("MDels" in mm or "illegal-fuzz" in mm))
+        (k in ("ModAck", "StreamAckNack") and ("MDels" in mm or "illegal-fuzz" in mm)) or \
+        (k in ("CreateSub", "UpdateSub") and "s.retry" in mm)     # the retry policy that governs every later lease, as stored
 
 
 def claim_c06(kind, mm):
@@ -1036,7 +1038,7 @@ CHECKS = {
         assumptions=BUS_ASSUME),
     "C02": dict(
         props=["C02", "Tie"],
-        parts=[engine_part("general", 32, 600, 45, claim_c02, ["pull_nonempty", "publish_ok", "publish_batch"])],
+        parts=[engine_part("general", 32, 600, 45, claim_c02, ["pull_nonempty", "publish_ok", "publish_batch"]), timers_part(TIMERS_C02)],
         rule="engine profile general over several topics and subscriptions sharing topics; owned projection: Pull responses (ack id, message id, payload as canonical JSON value, "
              "attributes, ordering key, publish time, attempt) and the messages table; payloads cover whitespace, unicode, HTML-sensitive characters, big/exponent numbers, nesting, non-JSON, empty",
         assumptions=BUS_ASSUME + ["payloads are compared by JSON value (the code stores the compacted, HTML-escaped form)"]),
